@@ -385,7 +385,7 @@ package rpc
 //@   invariant forall(i, 0, len(self.minHeap), liveT(self, self.minHeap[i]))
 //@   invariant len(self.minHeap) == len(self.list) && (len(self.list) == 0 || arr(self.minHeap) != arr(self.list))
 //@   invariant len(self.list) == 0 || (0 <= self.pos && self.pos < len(self.list))
-//@   invariant [C18] implies(self.closed == 1, len(self.pending) == 0)
+//@   invariant [C18 C03] implies(self.closed == 1, len(self.pending) == 0)
 //@   invariant [C18] forallkey(s, self.pending, self.pending[s] != nil && s < self.seq)
 //@   invariant self.pending != nil
 //@   invariant [C20] implies(self.closed == 0, self.done == nil || !chanClosed(self.done))
@@ -544,6 +544,8 @@ package rpc
 //@   property C16 C18 C04 C19
 //@   requires clientReady(c)
 //@   ensures [C16] routedOnce() || (ggb_dirfailed() && gg_rtcalls() == old(gg_rtcalls()) && result != nil)
+//@   atcall RoundTripper.CallWithContext#1: [C19] true
+//@   atcall RoundTripper.CallWithContext#2: [C19] true
 //@ func (*Client).Go
 //@   property C16 C18 C04
 //@   requires clientReady(c)
@@ -679,7 +681,7 @@ package rpc
 //@   atcall buffer.(*Pool).PutBuffer#1: [C11 C01] len(old(ctx.value)) == 0 || arr(call.Value) != arr(buf) || arr(call.Value) == arr(old(call.Buffer))
 //@   ensures [C01] gg_rbody() == old(gg_rbody()) + 1
 //@   ensures [C19] implies(len(old(ctx.value)) > 0 && cap(old(call.Buffer)) >= len(old(ctx.value)), arr(call.Value) == arr(old(call.Buffer)) && len(call.Value) == len(old(ctx.value)))
-//@   ensures [C01] implies(len(old(ctx.value)) > 0, len(call.Value) == len(old(ctx.value)))
+//@   ensures [C01 C19] implies(len(old(ctx.value)) > 0, len(call.Value) == len(old(ctx.value)))
 
 //@ pure readable(conn *Conn, ctx *Context) bool = conn != nil && ctx != nil && conn.bufferPool != nil &&
 //@      implies(!conn.directIO, !isnil(conn.readStream))
@@ -786,6 +788,7 @@ package rpc
 
 //@ func (*Conn).CallWithContext
 //@   property C01 C02 C19
+//@   nocall [C19 C02] putUpgrade
 //@   ghostset gg_ncall() = gg_ncall() + 1
 //@   ghostset gg_lastconn() = ref(conn)
 //@   requires usable(conn) && !isnil(ctx)
@@ -954,6 +957,8 @@ package rpc
 //@   atcall socket.Messages.WriteMessage#1: [C07 C01 C06] implies(isnil(c.headerEncoder), respWire(arg0, reqSeq, ctx.Error, reply))
 //@   ensures [C04] gg_wmsg() <= old(gg_wmsg()) + 1
 //@   ensures [C07 C04] implies(isnil(c.headerEncoder) && old(c.closed) == 0, gg_wmsg() == old(gg_wmsg()) + 1)
+//@   atcall buffer.(*Pool).PutBuffer#1: [C01 C11] gg_wmsg() == old(gg_wmsg()) + 1 || err != nil
+//@   atcall buffer.(*Pool).PutBuffer#2: [C01 C11] gg_wmsg() == old(gg_wmsg()) + 1 || err != nil
 //@   ensures [C04 C06] implies(!isnil(c.headerEncoder) && old(c.closed) == 0 && len(old(ctx.Error)) == 0 && old(ctx.upgrade.NoResponse) != 1, gg_cmarshal() == old(gg_cmarshal()) + 2)
 //@   ensures [C04 C06] implies(!isnil(c.headerEncoder) && old(c.closed) == 0 && !(len(old(ctx.Error)) == 0 && old(ctx.upgrade.NoResponse) != 1), gg_cmarshal() == old(gg_cmarshal()) + 1)
 
